@@ -185,4 +185,7 @@ func checkC05(r *evid.Run) {
 	r.Set("exhaustive", true)
 	r.Set("rule", "every well-formed document up to the line bound x every stop position k (callback error / iterator break) x {WalkFromMarkdown, WalkFromRoot, WalkIterFromRoot} x branch tuples; non-trivial = at least 3 nodes")
 	traceDocs(r, "C05", traceSpecC05)
+	bigw := traceSpecBig
+	bigw.Ops = []string{"walk"}
+	traceDocs(r, "C05", bigw)
 }
